@@ -1,8 +1,9 @@
 """C20: saved pairings and the accessory cache survive restart and interrupted saves.
 
 Ghost file system: a map path -> content, driven by the effect trace of the stubs below.  open(p, 'w')
-truncates p IMMEDIATELY; write appends - and a crash may leave any prefix of the written text; os.replace is
-atomic; a crash may happen between any two events."""
+truncates p IMMEDIATELY; write appends to a BUFFER - the text is on disk in full only after flush()/close() of that
+file returned, until then (and after a crash) the file holds any prefix of it; os.replace is atomic; a crash may
+happen between any two events, and flush/close may fail."""
 import builtins
 import os
 import pathlib
@@ -42,7 +43,7 @@ class FileStub(StubObj):
         it.ctx.trace.append(("close", self.path))
 
     def m_flush(self, it):
-        pass
+        it.ctx.trace.append(("flush", self.path))
 
     def m_fileno(self, it):
         return 3
@@ -119,7 +120,11 @@ def crash_safe(trace, filename, old, new):
             cur = [c for p, c in files if same_path(p, e[1])]
             if same_path(e[1], filename):
                 ok = False  # a crash in the middle of this write leaves a partial file under the real name
-            files = [(p, c) for p, c in files if not same_path(p, e[1])] + [(e[1], "new" if (cur == ["empty"] and e[2] is new) else "other")]
+            files = [(p, c) for p, c in files if not same_path(p, e[1])] + [(e[1], "buffered-new" if (cur == ["empty"] and e[2] is new) else "other")]
+        elif e[0] in ("close", "flush"):
+            # text files are buffered: what write() was given is on disk in full only after flush()/close() returned;
+            # until then the file holds an arbitrary prefix of it (and close/flush may fail, e.g. ENOSPC)
+            files = [(p, "new" if (c == "buffered-new" and same_path(p, e[1])) else c) for p, c in files]
         elif e[0] == "replace":
             src = [c for p, c in files if same_path(p, e[1])]
             files = [(p, c) for p, c in files if not same_path(p, e[1]) and not same_path(p, e[2])] + [(e[2], src[0] if src else "missing")]
@@ -170,15 +175,21 @@ class SaveData:
 
 def final_content(trace, filename, new):
     files = [(filename, "old")]
+    moves = []
     for e in trace:
         if e[0] == "open" and "w" in e[2]:
             files = [(p, c) for p, c in files if not same_path(p, e[1])] + [(e[1], "empty")]
         elif e[0] == "write":
             cur = [c for p, c in files if same_path(p, e[1])]
-            files = [(p, c) for p, c in files if not same_path(p, e[1])] + [(e[1], "new" if (cur == ["empty"] and e[2] is new) else "other")]
+            files = [(p, c) for p, c in files if not same_path(p, e[1])] + [(e[1], "buffered-new" if (cur == ["empty"] and e[2] is new) else "other")]
+        elif e[0] in ("close", "flush"):
+            # an open file follows its inode: after os.replace(src, dst) a close of the file opened as src completes dst
+            names = [e[1]] + [dst for src_, dst in moves if same_path(src_, e[1])]
+            files = [(p, "new" if (c == "buffered-new" and any(same_path(p, n) for n in names)) else c) for p, c in files]
         elif e[0] == "replace":
             src = [c for p, c in files if same_path(p, e[1])]
             files = [(p, c) for p, c in files if not same_path(p, e[1]) and not same_path(p, e[2])] + [(e[2], src[0] if src else "missing")]
+            moves.append((e[1], e[2]))
     here = [c for p, c in files if same_path(p, filename)]
     return here[0] if len(here) == 1 else "missing"
 
